@@ -105,6 +105,7 @@ type Builder struct {
 	fSubsidy, fMgmt types.Address
 	// ephemeral policy
 	AllowEphemeral bool
+	alignPH        uint64 // when set, v2 contracts drawn in this block share this proof height
 	// v2 scenario actions requested before the v1 part of the block was drawn (see AfterV1)
 	deferred []func()
 }
@@ -280,10 +281,15 @@ func (b *Builder) v1Inputs(picked []scCand) []types.SiacoinInput {
 }
 
 func (b *Builder) finishV1(txn types.Transaction) {
-	partial := rapid.IntRange(0, 4).Draw(b.T, "partialSig") == 0
-	SignV1(b.CS, &txn, partial)
-	if partial {
-		b.label("v1-partial-coverage")
+	mode := rapid.IntRange(0, 5).Draw(b.T, "partialSig")
+	partial := mode == 0
+	if mode == 1 && SignV1Covering(b.CS, &txn) {
+		b.label("v1-whole-signature-covering-other-signatures")
+	} else {
+		SignV1(b.CS, &txn, partial)
+		if partial {
+			b.label("v1-partial-coverage")
+		}
 	}
 	idx := b.txnIndex()
 	for i, o := range txn.SiacoinOutputs {
@@ -940,6 +946,9 @@ func (b *Builder) drawV2Contract(name string) types.V2FileContract {
 	missed := new(big.Int).Mul(host, big.NewInt(int64(rapid.IntRange(0, 1000).Draw(t, name+"missed"))))
 	missed.Quo(missed, big.NewInt(1000))
 	ph := b.Child + uint64(rapid.IntRange(0, 5).Draw(t, name+"ph"))
+	if b.alignPH != 0 {
+		ph = b.alignPH // a batch of contracts formed together for the same period
+	}
 	filesize, capacity := uint64(len(data)), uint64(len(data))+uint64(rapid.IntRange(0, 128).Draw(t, name+"slack"))
 	if b.W.Huge && rapid.IntRange(0, 5).Draw(t, name+"Huge") == 0 {
 		filesize, root = b.drawHugeFile(name)
@@ -951,7 +960,7 @@ func (b *Builder) drawV2Contract(name string) types.V2FileContract {
 	}
 	fc := types.V2FileContract{
 		Capacity: capacity, Filesize: filesize, FileMerkleRoot: root,
-		ProofHeight: ph, ExpirationHeight: ph + uint64(rapid.IntRange(1, 4).Draw(t, name+"exp")),
+		ProofHeight: ph, ExpirationHeight: ph + 4 - uint64(rapid.IntRange(0, 3).Draw(t, name+"exp")),
 		RenterOutput:    types.SiacoinOutput{Value: cur(renter), Address: b.drawLock(name+"renterAddr", false).Address()},
 		HostOutput:      types.SiacoinOutput{Value: cur(host), Address: b.drawLock(name+"hostAddr", false).Address()},
 		MissedHostValue: cur(missed), TotalCollateral: cur(collateral),
@@ -1149,6 +1158,37 @@ func (b *Builder) V2Resolve() bool {
 		if _, ok := b.W.Sparse[fc.FileMerkleRoot]; ok {
 			b.label("v2-proof-of-huge-file")
 		}
+		// a host proving several contracts at once: further provable contracts join the same transaction (contracts
+		// formed together share their proof height, hence the chain index element their proofs refer to)
+		if rapid.Bool().Draw(t, "v2resSeveral") {
+			extra := 0
+			// those that share this contract's proof height first
+			ordered := append([]types.V2FileContractElement(nil), cands...)
+			sort.SliceStable(ordered, func(i, j int) bool {
+				return ordered[i].V2FileContract.ProofHeight == fc.ProofHeight && ordered[j].V2FileContract.ProofHeight != fc.ProofHeight
+			})
+			for _, e2 := range ordered {
+				if e2.ID == e.ID || b.usedFC[e2.ID] || e2.V2FileContract.Filesize == 0 || extra == 2 {
+					continue
+				}
+				res2, ok := b.V2ProofFor(e2)
+				if !ok {
+					continue
+				}
+				txn.FileContractResolutions = append(txn.FileContractResolutions, res2)
+				b.expectSC(e2.ID.V2RenterOutputID(), e2.V2FileContract.RenterOutput, b.maturity(), "v2 proof renter output")
+				b.expectSC(e2.ID.V2HostOutputID(), e2.V2FileContract.HostOutput, b.maturity(), "v2 proof host output")
+				b.usedFC[e2.ID] = true
+				b.Exp.contract(e2.ID, true).Resolved = kind
+				extra++
+				if e2.V2FileContract.ProofHeight == fc.ProofHeight {
+					b.label("v2-proofs-sharing-a-proof-index-in-one-transaction")
+				}
+			}
+			if extra > 0 {
+				b.label(fmt.Sprintf("v2-%d-proofs-in-one-transaction", extra+1))
+			}
+		}
 	case "expire":
 		txn.FileContractResolutions = []types.V2FileContractResolution{{Parent: e.Copy(), Resolution: &types.V2FileContractExpiration{}}}
 		b.expectSC(e.ID.V2RenterOutputID(), fc.RenterOutput, b.maturity(), "v2 expiry renter output")
@@ -1223,6 +1263,26 @@ func (b *Builder) V2Resolve() bool {
 	b.label("v2-resolve-" + kind)
 	b.finishV2(txn, SignOpts{})
 	return true
+}
+
+// V2FormBatch forms two or three v2 contracts with one common proof height in this block (a host accepting several
+// contracts for the same period); their storage proofs will all refer to the same chain index element.
+func (b *Builder) V2FormBatch() bool {
+	if !b.v2Allowed() {
+		return false
+	}
+	b.alignPH = b.Child + uint64(rapid.IntRange(1, 3).Draw(b.T, "batchPH"))
+	defer func() { b.alignPH = 0 }()
+	n := 0
+	for i := rapid.IntRange(2, 3).Draw(b.T, "batchN"); i > 0; i-- {
+		if b.V2Form() {
+			n++
+		}
+	}
+	if n >= 2 {
+		b.label("v2-form-batch-sharing-proof-height")
+	}
+	return n > 0
 }
 
 // V2Attest adds attestations.
